@@ -100,6 +100,18 @@ var props = map[string]propCfg{
 		},
 		MinNontriv: 500,
 	},
+	"C04": {
+		Quick:    tierCfg{Shards: 8, Checks: 800, Timeout: 5 * time.Minute, Env: []string{"VERIF_C04_MAXLIST=4"}},
+		Thorough: tierCfg{Shards: 16, Checks: 12000, Timeout: 40 * time.Minute, Env: []string{"VERIF_C04_MAXPAT=5", "VERIF_C04_MAXPAT_ARGS=6"}},
+		Rule: "part (a), exhaustive: every pattern over {atom a, atom b, metavariable x, metavariable y, elision} up to a length bound with at most 3 elisions, against all lists of length 0..5 (thorough; 364 lists) or 0..4 (quick; 121 lists) over {a,b,c} planted as sites of one file, per list kind (call arguments, composite elements, return results, unnamed and named parameters, results, struct fields, interface methods, block statements inside 'if tgt {', block statements with the implicit leading/trailing elision); oracle = a 30-line backtracking list model (shortest run first, left to right, consistent metavariables) giving match/no-match and the exact output list; quick = call arguments (length <= 5), struct fields and both statement forms (length <= 4), thorough = all kinds with length <= 5 (call arguments <= 6). " +
+			"part (b), generated: mined patterns with 1-3 elisions (lists up to 12 elements, for-headers) in real hosts against the reference matcher. " +
+			"Non-trivial = (a) a (pattern, kind) pair with an elision for which at least one list has a non-empty elided run or is a non-match of length >= 2; (b) a pattern with an elision, >= 1 site and >= 1 elided element. Distinct by (kind, pattern) resp. sha256(patch, file).",
+		Assumptions: append([]string{
+			"part (a): elisions stand on context lines of the patch (one element per line), the form the documentation recommends; a pattern of the fixed family that gopatch rejects counts as a violation because every member is accepted on the unchanged tree",
+			"statement patterns with an explicit elision directly next to the implicit leading/trailing one are skipped (the split of elements between the two is not determined by the property)",
+		}, modelAssumptions...),
+		MinNontriv: 50,
+	},
 }
 
 var modelAssumptions = []string{
